@@ -168,6 +168,17 @@ Inductive tree :=
 | TProp (n : list Z)
 | TTag (b : list Z).
 
+(* what a tree is read back as: decimals to the 8 places the text keeps (a non-zero value below 5e-9 comes back as zero) *)
+Fixpoint untiny (t : tree) : tree :=
+  match t with
+  | TDict d => TDict ((fix go (l : list (list Z * tree)) : list (list Z * tree) :=
+                         match l with [] => [] | kv :: r => (fst kv, untiny (snd kv)) :: go r end) d)
+  | TList l => TList ((fix go (l : list tree) : list tree := match l with [] => [] | x :: r => untiny x :: go r end) l)
+  | TFloat f => TFloat (Fl (fneg f) (fmag f) false)
+  | _ => t
+  end.
+Definition untiny_kvs (d : list (list Z * tree)) : list (list Z * tree) := map (fun kv => (fst kv, untiny (snd kv))) d.
+
 Definition is_dict (t : tree) : bool := match t with TDict _ => true | _ => false end.
 
 (* ---------- decimal digits *)
@@ -502,7 +513,7 @@ Definition wf_leaf (t : tree) : bool :=
   | TStr p => utf16_ok p
   | TInt z => int_ok z
   | TBool _ => true
-  | TFloat f => (0 <=? fmag f) && negb (ftiny f)
+  | TFloat f => (0 <=? fmag f) && (negb (ftiny f) || (fmag f =? 0))     (* tiny: non-zero, rounds to 0 *)
   | TProp n => name_ok n
   | TTag b => (kind_eqb (classify b) KTag || kind_eqb (classify b) KTag2) && clean b
   | _ => true
